@@ -11,6 +11,7 @@ import KafkaVerif.Lemmas.FetchDecoder
 import KafkaVerif.Model.ReaderLoop
 import KafkaVerif.Model.ReaderFront
 import KafkaVerif.Gen.DecoderFacts
+import KafkaVerif.Lemmas.ReaderFront
 
 namespace KV.C02
 
@@ -309,5 +310,78 @@ theorem setoffset_next (f : Front) (expected : List Rec) (hfed : Fed f expected)
 /-- stale entries are skipped: after SetOffset the two queued messages of the old fetcher are dropped -/
 example : (({ version := 0, queue := [(0, (5, 1)), (0, (6, 2))] } : Front).setOffset.enqueue 1 (3, 9)).fetchMessage
     = some ((3, 9), { version := 1, queue := [] }) := by rfl
+
+/-! ### `Fed` discharged: the front as a transition system (Model/ReaderFront.lean `fstep`)
+
+Events: `setOffset o` (cancel, version++, start a fetcher at `o` that carries the new tag), `enqueue t` (fetcher `t` —
+current or stale, cancelled or not, any number of times — sends its next record), `fetch` (FetchMessage).  The
+fetchers send, in order, the stored records at or above their start offset (`iterated_fetch` for the loop of §3). -/
+
+/-- the invariant holds initially and along every run -/
+theorem front_invariant (log : List Rec) : ∀ (es : List FEv) (s s' : FS) (ms : List Rec),
+    FInv log s → frun log s es = some (s', ms) → FInv log s' := by
+  intro es
+  induction es with
+  | nil => intro s s' ms h hr; simp only [frun, Option.some.injEq, Prod.mk.injEq] at hr; rw [← hr.1]; exact h
+  | cons e es ih =>
+    intro s s' ms h hr
+    simp only [frun] at hr
+    cases hs : fstep log s e with
+    | none => simp [hs] at hr
+    | some p =>
+      obtain ⟨s1, m⟩ := p
+      simp only [hs] at hr
+      cases hq : frun log s1 es with
+      | none => simp [hq] at hr
+      | some q =>
+        obtain ⟨s2, ms'⟩ := q
+        simp only [hq, Option.some.injEq, Prod.mk.injEq] at hr
+        rw [← hr.1]
+        exact ih s1 s2 ms' (finv_step h hs).1 hq
+
+/-- `setoffset_next`, full form: after `SetOffset(o)` returns — in any reachable state of the front, whatever is still
+queued and whatever the old fetchers still enqueue — the messages the following FetchMessage calls return are, in
+order, the stored records at or above `o`; in particular the first one is the stored record with the smallest
+offset at or above `o`. -/
+theorem frun_cons {log : List Rec} {s s' : FS} {e : FEv} {es : List FEv} {ms : List Rec}
+    (h : frun log s (e :: es) = some (s', ms)) :
+    ∃ s1 m ms', fstep log s e = some (s1, m) ∧ frun log s1 es = some (s', ms') ∧
+      ms = (match m with | some r => [r] | none => []) ++ ms' := by
+  simp only [frun] at h
+  cases hs : fstep log s e with
+  | none => simp [hs] at h
+  | some p =>
+    obtain ⟨s1, m⟩ := p
+    simp only [hs] at h
+    cases hq : frun log s1 es with
+    | none => simp [hq] at h
+    | some q =>
+      obtain ⟨s2, ms'⟩ := q
+      simp only [hq, Option.some.injEq, Prod.mk.injEq] at h
+      exact ⟨s1, m, ms', rfl, by rw [← h.1]; exact hq, h.2.symm⟩
+
+theorem setoffset_delivers (log : List Rec) (s0 s' : FS) (h0 : FInv log s0) (o : Int) (es : List FEv)
+    (hns : ∀ e ∈ es, notSet e) (ms : List Rec) (hr : frun log s0 (.setOffset o :: es) = some (s', ms)) :
+    ms = (feed log o).take ms.length := by
+  obtain ⟨s1, m, ms', hs, hq, rfl⟩ := frun_cons hr
+  have hinv := (finv_step h0 hs).1
+  simp only [fstep, Option.some.injEq, Prod.mk.injEq] at hs
+  obtain ⟨rfl, rfl⟩ := hs
+  have := front_run log es _ s' ms' (Fetcher.mk (s0.version + 1) o 0) hinv (by simp) rfl hns hq
+  simpa using this
+
+theorem setoffset_first (log : List Rec) (s0 s' : FS) (h0 : FInv log s0) (o : Int) (es : List FEv)
+    (hns : ∀ e ∈ es, notSet e) (r : Rec) (ms : List Rec) (hr : frun log s0 (.setOffset o :: es) = some (s', r :: ms)) :
+    (feed log o).head? = some r := by
+  have := setoffset_delivers log s0 s' h0 o es hns (r :: ms) hr
+  cases hf : feed log o with
+  | nil => rw [hf] at this; simp at this
+  | cons x xs => rw [hf] at this; simp only [List.length_cons, List.take_succ_cons, List.cons.injEq] at this; simp [this.1]
+
+/-- a run: two messages of fetcher 1 are queued, SetOffset(12), the cancelled fetcher still enqueues one more, the new
+one enqueues; FetchMessage skips the three stale entries -/
+example : (frun [(10, 0), (11, 1), (12, 2), (13, 3)] {}
+    [.setOffset 10, .enqueue 1, .enqueue 1, .setOffset 12, .enqueue 1, .enqueue 2, .fetch]).map (·.2) = some [(12, 2)] := by
+  decide
 
 end KV.C02
